@@ -310,6 +310,7 @@ func rulePileAdd(c *Ctx, rule string) {
 		ssa.Instruction
 		Index ssa.Value
 		pair  [2]ssa.Value // the two halves of the key, when a wrapper builds the key from two arguments
+		both  bool         // the call is to a helper that looks its key up in both orientations itself
 	}
 	// a private helper that looks its parameter up in p.seen and reports whether it is there (isSeen)
 	lookupWrapper := func(g *ssa.Function) int {
@@ -346,6 +347,29 @@ func rulePileAdd(c *Ctx, rule string) {
 			case *ssa.Call:
 				if x.Call.StaticCallee() == merge {
 					merges = append(merges, x)
+				} else if g := x.Call.StaticCallee(); g != nil && g.Pkg == add.Pkg && g.Blocks != nil && g != add {
+					// a private helper that builds the interval and merges it (mergeFeature(f))
+					for _, h := range privateReach(g) {
+						if h == merge {
+							merges = append(merges, x)
+							break
+						}
+					}
+				}
+				if g := x.Call.StaticCallee(); g != nil && g.Pkg == add.Pkg && g.Blocks != nil && g != add {
+					// a helper that looks the key it is given up as it is and with its halves exchanged (isSeen(ab))
+					var ls []*ssa.Lookup
+					for _, gb := range g.Blocks {
+						for _, gi := range gb.Instrs {
+							if l, ok := gi.(*ssa.Lookup); ok && l.CommaOk && loadOfField(l.X, palsPkg, "Piler", "seen") {
+								ls = append(ls, l)
+							}
+						}
+					}
+					if len(ls) == 2 && (swappedKeys(ls[0].Index, ls[1].Index) || swappedKeys(ls[1].Index, ls[0].Index)) {
+						lookups = append(lookups, lookupEv{Instruction: x, Index: ls[0].Index, both: true}, lookupEv{Instruction: x, Index: ls[1].Index, both: true})
+						continue
+					}
 				}
 				if pi := lookupWrapper(x.Call.StaticCallee()); pi >= 0 && pi < len(x.Call.Args) {
 					lookups = append(lookups, lookupEv{Instruction: x, Index: x.Call.Args[pi]})
@@ -366,6 +390,8 @@ func rulePileAdd(c *Ctx, rule string) {
 	switch {
 	case inTable:
 		c.ok(rule, key+"duplicate-lookup-both-orientations", lookups[0].Pos(), "the pair is looked up in a loop over a table holding it as (A,B) and as (B,A)")
+	case len(lookups) >= 2 && lookups[0].both && lookups[1].both:
+		c.ok(rule, key+"duplicate-lookup-both-orientations", lookups[0].Pos(), "the pair is looked up through a helper that tries the key as given and with its halves exchanged")
 	case len(lookups) >= 2 && lookups[0].pair[0] != nil && lookups[1].pair[0] != nil && lookups[0].pair[0] != lookups[0].pair[1] && lookups[0].pair[0] == lookups[1].pair[1] && lookups[0].pair[1] == lookups[1].pair[0]:
 		c.ok(rule, key+"duplicate-lookup-both-orientations", lookups[0].Pos(), "the pair is looked up as (A,B) and as (B,A) through a helper that builds the key from its two arguments")
 	case len(lookups) >= 2 && lookups[0].Index != lookups[1].Index && swappedKeys(lookups[0].Index, lookups[1].Index):
@@ -792,6 +818,29 @@ func swappedKeys(k1, k2 ssa.Value) bool {
 	}
 	a1, b1 := elems(k1)
 	a2, b2 := elems(k2)
+	// k2 built from the elements of k1 itself ([2]sf{ab[1], ab[0]}), k1 being a variable that is not
+	// assembled element by element here (a parameter)
+	if u1, ok := k1.(*ssa.UnOp); ok && u1.Op == token.MUL {
+		if al1, ok := u1.X.(*ssa.Alloc); ok && a2 != nil && b2 != nil {
+			elemOf := func(v ssa.Value) int64 {
+				u, ok := v.(*ssa.UnOp)
+				if !ok || u.Op != token.MUL {
+					return -1
+				}
+				ia, ok := u.X.(*ssa.IndexAddr)
+				if !ok || ia.X != ssa.Value(al1) {
+					return -1
+				}
+				if i, ok := constIntVal(ia.Index); ok {
+					return i
+				}
+				return -1
+			}
+			if elemOf(a2) == 1 && elemOf(b2) == 0 {
+				return true
+			}
+		}
+	}
 	a1, b1, a2, b2 = norm(a1), norm(b1), norm(a2), norm(b2)
 	return a1 != nil && b1 != nil && a1 == b2 && b1 == a2 && a1 != b1
 }
